@@ -230,21 +230,19 @@ def check_valid(ctx, batch, text, items, expected, what, flags=None, additional=
     detail = {"sdl": text, "flags": kw, "mode": what, "additional": wire_additional or []}
     if real[0] == "ok":
         if canon(real[1]) != canon(expected):
-            if isinstance(alt_expected, dict) and canon(real[1]) == canon(alt_expected):
-                ctx.fail("S8:default-coerced-against-unextended-type", "a default value is coerced against the un-extended type definitions",
-                         detail)
-            else:
-                p = diff_path(expected, real[1])
-                ctx.fail("content-mismatch:%s:%s" % (what, p), "built schema differs from the declared content at " + p,
-                         dict(detail, expected=expected, got=real[1]))
+            # since fix C14-T15 every default is evaluated in the EXTENDED types: a value over the un-extended
+            # types in the built schema is a plain mismatch again
+            p = diff_path(expected, real[1])
+            ctx.fail("content-mismatch:%s:%s" % (what, p), "built schema differs from the declared content at " + p,
+                     dict(detail, expected=expected, got=real[1]))
             return False
         return True
     if real[0] == "rej":
-        # S8 applies to this document (a default uses members that only extensions add): since the A5 fix
-        # (unknown input fields in literals are rejected) the un-extended coercion may also reject with SDLError
+        # what is left of S8: a default written in a DEFINITION which needs a member that only an `extend` block of
+        # the same document declares is refused by the first pass (build_schema_ignoring_extensions)
         if alt_expected is not None and real[1] == "sdl":
-            ctx.fail("S8:default-coerced-against-unextended-type", "a default value is coerced against the un-extended type definitions",
-                     detail)
+            ctx.fail("S8:default-coerced-against-unextended-type",
+                     "a default value written in a definition is coerced against the un-extended type definitions", detail)
             return False
         ctx.fail("valid-rejected:%s:%s" % (what, real[2]), "valid document rejected with " + real[2], detail)
     else:
@@ -289,15 +287,15 @@ def run_generated(ctx, batch):
             ctx.notes.append("generated documents cut short by the time budget at %d" % k)
             break
         size = ctx.rng.choice([1, 1, 2, 2, 3])
-        s8_safe = ctx.rng.random() < 0.85
+        s8_safe = ctx.rng.random() < 0.6
         D, items = sdl.gen_doc(ctx.rng, size=size, p_ext=ctx.rng.choice([0.0, 0.3, 0.6, 0.9]), s8_safe=s8_safe)
         expected = sdl.expected_dump(D)
         alt = None
         if not s8_safe:
             try:
-                alt = sdl.expected_dump(D, env=sdl.declared(items, base_only=True))
+                sdl.expected_dump(sdl.declared(items, base_only=True))
             except sdl.Invalid:
-                alt = "invalid-over-base"    # a default literal needs a member that only an extension declares
+                alt = "invalid-over-base"    # a default literal of a DEFINITION needs a member that only an extension declares
         feats = features(items)
         for f in feats:
             ctx.stat("feature:" + f)
@@ -662,17 +660,9 @@ def _corpus_case(ctx, batch, case, parse):
             return False
         exp = sdl.expected_dump(sdl.declared(items, base_only=bool(flags.get("ignore_extensions"))))
         if canon(exp) != canon(real[1]):
-            alt = None
-            try:
-                alt = sdl.expected_dump(sdl.declared(items), env=sdl.declared(items, base_only=True))
-            except sdl.Invalid:
-                pass
-            if alt is not None and canon(alt) == canon(real[1]):
-                ctx.fail("S8:default-coerced-against-unextended-type", "a default value is coerced against the un-extended type definitions", detail)
-            else:
-                p = diff_path(exp, real[1])
-                ctx.fail("content-mismatch:%s:%s" % (sig, p), "built schema differs from the declared content at " + p,
-                         dict(detail, expected=exp, got=real[1]))
+            p = diff_path(exp, real[1])
+            ctx.fail("content-mismatch:%s:%s" % (sig, p), "built schema differs from the declared content at " + p,
+                     dict(detail, expected=exp, got=real[1]))
             return False
         return True
     if real[0] == "ok":
